@@ -5,6 +5,10 @@ ROOT = os.path.dirname(os.path.dirname(os.path.abspath(__file__)))
 
 # id -> (technique, level text, level note, design ref)  -- only checks that exist and pass are listed
 CHECKS = {
+  "C01": ("bounded exhaustive enumeration of expressions (every construct over the leaf alphabet in every slot; every construct with one slot filled by every level-1 term; structural triples; all iteration-domain shape combinations) x all bindings of the free names, each evaluated by the real parser+evaluator and compared with a reference FEEL interpreter; scope-independence differential",
+          "Every (expression, binding) pair of the bounded fragment is parsed and evaluated by the implementation and compared structurally with an independent reference interpreter; each is also evaluated in a scope with unrelated extra entries and stacked contexts and must give the same value. Deviations that are recorded known findings are reproduced by the reference's deviation mode and attributed to their tag; anything else is a violation.",
+          "Trusts harness/vh/src/ref_feel.rs as the FEEL semantics of the fragment; cases the DMN text leaves open are executed but not compared (counted). Operand values outside the alphabets and nesting beyond the bound are not covered.",
+          "DESIGN.md §4 C01"),
   "C06": ("bounded exhaustive enumeration of syntax trees (every constructor in every slot of every constructor, depth-3 spines) x parenthesisations x layouts, and of every string escape of every code point, against a precedence-table unparser",
           "Every tree of the bounded space is rendered fully parenthesised, minimally parenthesised and with each needed pair removed, in six token-preserving layouts, and parsed by the real parser; the parsed tree is compared with the generating tree. All 1 114 112 code points in every escape spelling and all 1 048 576 surrogate pairs are lexed. A coverage statement within the depth bound, not a sample.",
           "Trusts the transcribed precedence table in harness/vh/src/term.rs (validated by this run itself: a wrong table shows up as a mismatch) and AstNode's derived PartialEq. Trees deeper than 3 are outside the bound.",
